@@ -495,3 +495,14 @@ CORPUS += [
     V("C17", "eq-extra-rename-index", DSF, "    def __getitem__(self, idx):\n        data = self.data[idx]\n        data[self.key_name] = self.extra[idx]\n        return data", "    def __getitem__(self, index):\n        item = self.data[index]\n        item[self.key_name] = self.extra[index]\n        return item", None),
     V("C17", "eq-collate-rename", DSF, "[b[key] for b in batch]", "[elem[key] for elem in batch]", None),
 ]
+
+CORPUS += [
+    # ---------------------------------------------------------------- C18
+    V("C18", "op-generator-device-again", R + "op/generator.py", "prize = torch.ones(*batch_size, self.num_loc)", "prize = torch.ones(*batch_size, self.num_loc, device=self.device)", "C18.a"),
+    V("C18", "cvrp-generator-renamed-attr", R + "cvrp/generator.py", "self.vehicle_capacity", "self.vehicle_cap", "C18.d", count=99),
+    V("C18", "eq-tsp-generator-rename-local", R + "tsp/generator.py", "        locs = self.loc_sampler.sample((*batch_size, self.num_loc, 2))", "        coords = self.loc_sampler.sample((*batch_size, self.num_loc, 2))\n        locs = coords", None),
+    V("C18", "tsp-generator-typo-read", R + "tsp/generator.py", "locs = self.loc_sampler.sample((*batch_size, self.num_loc, 2))", "locs = self.loc_sampler.sample((*batch_size, self.num_locs, 2))", "C18.a"),
+    V("C18", "sampler-branch-dropped", "rl4co/envs/common/utils.py", '    elif distribution == Poisson or distribution == "poisson":', '    elif distribution == Poisson:', "C18.b"),
+    V("C18", "cvrp-generator-key-renamed", R + "cvrp/generator.py", '"demand": demand / self.capacity,', '"demands": demand / self.capacity,', "C18.c"),
+    V("C18", "pctsp-generator-drops-stochastic-prize", R + "pctsp/generator.py", '"stochastic_prize": stochastic_prize,', '', "C18.c"),
+]
